@@ -114,7 +114,7 @@ def run(ctx):
     if ctx.replay:
         return replay(ctx)
     ops = op_list(ctx)
-    per = 30 if ctx.quick else 1000
+    per = 60 if ctx.quick else 1500
     nchunks = 4 if ctx.quick else 12
     chunks = [c for c in (ops[i::nchunks] for i in range(nchunks)) if c]
     cfg_text = open(os.path.join(vlib.SPECS, "ops/Trace_Onnx.cfg")).read()
